@@ -216,6 +216,8 @@ class Evaluator:
         # self.X / self.__class__.X / cls.X / Cls.X / module.X / Cls.Inner.X
         v = e.value
         if isinstance(v, ast.Name) and v.id in ("self", "cls") and self.cls is not None and v.id not in self.env:
+            if e.attr in self.repo.instance_assigned(self.cls):
+                return UNK     # instance attribute shadows any class-level default
             k, expr = self.repo.class_const(self.cls, e.attr)
             if expr is not None:
                 return self.sub(module=k.module, cls=self.cls).ev(expr)
